@@ -62,6 +62,15 @@ class Hist:
             w = [int(rng.integers(self.n))]
             op = cirq.X(self.qubits[w[0]]).with_classical_controls(k)
             inf = (frozenset(w), frozenset(), frozenset([k]))
+        elif r < 0.31:
+            # an operation on no qubits at all (conflicts with nothing unless it is classically controlled)
+            w = []
+            op = cirq.global_phase_operation([1j, -1, np.exp(0.3j)][int(rng.integers(3))])
+            inf = (frozenset(), frozenset(), frozenset())
+            if rng.random() < 0.3:
+                k = KEYS[int(rng.integers(len(KEYS)))]
+                op = op.with_classical_controls(k)
+                inf = (frozenset(), frozenset(), frozenset([k]))
         elif r < 0.65:
             w = [int(rng.integers(self.n))]
             g = [cirq.X, cirq.Y, cirq.Z, cirq.H, cirq.S, cirq.T][int(rng.integers(6))]
